@@ -40,6 +40,9 @@ fn value_digest(h: u64, v: &Value) -> u64 {
         Value::Binary(s) => fnv_add(fnv_add(h, b"B"), s.as_bytes()),
         Value::Octal(s) => fnv_add(fnv_add(h, b"O"), s.as_bytes()),
         Value::Arbitrary(s) => fnv_add(fnv_add(h, b"A"), s),
+        // a kind of value this harness does not know (a library with more kinds must still build)
+        #[allow(unreachable_patterns)]
+        other => fnv_add(fnv_add(h, b"?"), format!("{:?}", other).as_bytes()),
     }
 }
 
